@@ -45,7 +45,18 @@ def unbound_class(name, text, spec):
     # (b) the forced explicit shape of an output rank made by flatten(): `shape=[.., JM, ..]`
     flats = set("".join(f) for f in partition_info(spec)[1])
     return {"unbound_is_format_tensor_variant": fmt_variant,
+            # (c) `<r>_pos` of the eager-interval form: metrics mode never wraps the loop in enumerate(...)
+            "unbound_is_loop_position": bool(name.endswith("_pos") and not assigned),
             "unbound_is_flattened_rank_in_shape": bool(name in flats and not assigned and reads and len(in_shape) == len(reads))}
+
+
+def same_outcome(a, b):
+    """Both executions end the same way: the same output report, or the same error (the same unbound name)."""
+    if a["status"] != b["status"]:
+        return False
+    if a["status"] == "RAN":
+        return a["out"] == b["out"]
+    return a.get("unbound", a.get("err")) == b.get("unbound", b.get("err"))
 
 
 def out_partitioned(spec):
@@ -138,6 +149,11 @@ def run(ctx):
             w = specgen_hw.wrap_single(rng, it)
             if w is not None:
                 items.append(w)
+    # index math (C04's class) with metrics on: the eager-interval form needs the loop position that metrics mode suppresses
+    for it in popgen.affine(rng, 60 if q else 400):
+        w = specgen_hw.wrap_single(rng, it)
+        if w is not None:
+            items.append(w)
     # compiled only (both static side conditions below are evaluated on them; no execution)
     static_only = [specgen_hw.gen_cascade(rng) for _ in range(250 if q else 3000)]
     # index-math outputs are built with an explicit shape in plain mode as well (iterRangeShapeRef over the output rank)
@@ -206,8 +222,13 @@ def run(ctx):
         rm, rp = c.result, p.result
         if rm["status"] == "RAN" and rm["out"] == "OK" and rm["inp"] == "OK":
             continue
-        bad += 1
         plain_ok = rp["status"] == "RAN" and rp["out"] == "OK"
+        if c.meta["kind"] == "affine+hw" and not plain_ok and same_outcome(rm, rp):
+            # the plain program already differs from the Einsum in exactly the same way: the index-math defects F4/F5/F11/F12
+            # that C04 reports (known_findings.json); nothing the instrumentation changed
+            stats["affine_same_as_plain_wrong"] = stats.get("affine_same_as_plain_wrong", 0) + 1
+            continue
+        bad += 1
         key = {"kind": "metrics-mode-differs" if plain_ok else "both-modes-wrong",
                "take_in_sum_selected_lacks_rank": any(specgen.take_selected_lacks_rank(s) for s in c.spec.structs)}
         if rm["status"] == "ERR" and "unbound" in rm:
